@@ -490,3 +490,9 @@ def run(ck):
     ck.attempt(rule_selection)
     ck.attempt(rule_lookup)
     ck.attempt(rule_alignment)
+    # "energy cost and demand charge equal sum(price x power x dt) and demand rate x peak power": the power they price is the station
+    # rates weighted by each station's voltage (rules of C18 on aggregate_power / demand_charge / energy_cost)
+    from .c18 import rule_current_power, rule_demand_cost
+    ck.attempt(rule_current_power, rid_c="C17.S6", rid_p="C17.S6")
+    ck.attempt(rule_demand_cost)
+
